@@ -392,7 +392,7 @@ theorem erasure_run_ok (p : Prog) (hF : noTryF p.funs = true) (he : noTryE p.mai
   | mk r s1 =>
     rw [hr] at h
     have hnf : ¬ isFailRes r := by
-      rintro (⟨hh, t, e⟩ | ⟨hh, t, e⟩) <;> subst e <;> simp at h
+      rintro ⟨hh, t, e⟩; subst e; simp at h
     rw [erasure_tryfree p.funs hF fuel p.main he {} s1 r hr hnf]
     exact h
 
